@@ -193,7 +193,7 @@ pub enum KeyMod {
 #[derive(Clone, Debug)]
 pub enum RVal {
     Pat(Pattern),
-    IntC(i64),
+    IntC(i128),
     FloatC(f64),
     BoolC(bool),
     Null,
@@ -247,6 +247,13 @@ pub struct RefRule {
     pub idents: Vec<(String, RIdent)>,
     pub cond: Cond,
     pub ignore_case_build: bool,
+    /// the rule holds an integer constant outside the signed 64-bit range: rejecting it at load
+    /// time is as admissible as giving it its mathematical meaning
+    pub loader_may_reject: bool,
+}
+
+thread_local! {
+    static WIDE_CONSTANT: std::cell::Cell<bool> = const { std::cell::Cell::new(false) };
 }
 
 // ---------------------------------------------------------------------------------------------
@@ -351,9 +358,12 @@ fn parse_scalar_value(v: &Y, icb: bool) -> Result<RVal, RefErr> {
         Y::Bool(b) => Ok(RVal::BoolC(*b)),
         Y::Number(n) => {
             if let Some(i) = n.as_i64() {
-                Ok(RVal::IntC(i))
-            } else if n.is_u64() {
-                unsupported("integer constant above i64::MAX")
+                Ok(RVal::IntC(i as i128))
+            } else if let Some(u) = n.as_u64() {
+                // the rule language has signed 64-bit constants: a loader may refuse this one, and
+                // if it does not, the constant means the integer that was written
+                WIDE_CONSTANT.with(|w| w.set(true));
+                Ok(RVal::IntC(u as i128))
             } else if let Some(f) = n.as_f64() {
                 Ok(RVal::FloatC(f))
             } else {
@@ -403,7 +413,7 @@ fn check_combo(modifier: &KeyMod, v: &RVal) -> Result<(), RefErr> {
             }
         }
         (KeyMod::Str, RVal::IntC(_) | RVal::FloatC(_) | RVal::BoolC(_)) => Ok(()),
-        (KeyMod::Str, RVal::Null) => unsupported("str() with null"),
+        (KeyMod::Str, RVal::Null) => Ok(()),
         (KeyMod::Int, RVal::Pat(p)) => match p.pat {
             Pat::Num(_, NumConst::I(_)) => Ok(()),
             Pat::Num(_, NumConst::F(_)) => unsupported("int() with a float pattern"),
@@ -411,12 +421,13 @@ fn check_combo(modifier: &KeyMod, v: &RVal) -> Result<(), RefErr> {
         },
         (KeyMod::Int, RVal::IntC(_) | RVal::BoolC(_)) => Ok(()),
         (KeyMod::Int, RVal::FloatC(_)) => invalid("float under int()"),
-        (KeyMod::Int, RVal::Null) => unsupported("int() with null"),
+        (KeyMod::Int, RVal::Null) => Ok(()),
         (KeyMod::Flt, RVal::Pat(p)) => match p.pat {
             Pat::Num(_, NumConst::F(_)) => Ok(()),
             _ => unsupported("flt() with a non-float pattern"),
         },
         (KeyMod::Flt, RVal::FloatC(_)) => Ok(()),
+        (KeyMod::Flt, RVal::Null) => Ok(()),
         (KeyMod::Flt, _) => unsupported("flt() with a non-float constant"),
         (_, RVal::List(_)) => unreachable!(),
     }
@@ -573,6 +584,10 @@ pub fn tokenise_condition(s: &str) -> Result<Vec<Tok>, RefErr> {
             out.push(tok);
         } else if c == '.' || c == '-' || c.is_ascii_digit() {
             let start = i;
+            if c == '-' {
+                // a sign belongs to the literal that follows it directly
+                i += 1;
+            }
             while i < cs.len() && (cs[i].is_numeric() || cs[i] == '.') {
                 i += 1;
             }
@@ -894,6 +909,7 @@ pub fn load_detection(det: &Y, ignore_case_build: bool) -> Result<RefRule, RefEr
     };
     let mut idents = vec![];
     let mut cond_text: Option<String> = None;
+    WIDE_CONSTANT.with(|w| w.set(false));
     for (k, v) in m {
         let name = match k {
             Y::String(s) => s.clone(),
@@ -918,7 +934,7 @@ pub fn load_detection(det: &Y, ignore_case_build: bool) -> Result<RefRule, RefEr
     let tree = parse_condition_tree(&cond_text)?;
     let names: Vec<String> = idents.iter().map(|(n, _)| n.clone()).collect();
     let cond = validate_tree(&tree, &names)?;
-    Ok(RefRule { idents, cond, ignore_case_build })
+    Ok(RefRule { idents, cond, ignore_case_build, loader_may_reject: WIDE_CONSTANT.with(|w| w.get()) })
 }
 
 pub fn load_rule_text(text: &str, ignore_case_build: bool) -> Result<RefRule, RefErr> {
@@ -1512,19 +1528,30 @@ impl<'a> Evaluator<'a> {
         let ops: Vec<RSet> = match id {
             RIdent::Seq(bs) => bs.iter().map(|b| self.eval_block(b, doc)).collect(),
             RIdent::Map(b) => {
+                let mut members: Option<Vec<RSet>> = None;
                 if b.0.len() == 1 {
-                    if let RVal::List(_) = b.0[0].val {
-                        // a single entry whose value is a list: README and C08 disagree on what
-                        // is counted
-                        return self.njr("quantifier over single-entry identifier with list value");
+                    let e = &b.0[0];
+                    if let (RVal::List(ms), KeyMod::None | KeyMod::Str | KeyMod::Int | KeyMod::Flt) =
+                        (&e.val, &e.modifier)
+                    {
+                        // a list that is all there is to the identifier: its members are the
+                        // entries that are counted (C08: "the members as written")
+                        let v = match self.lookup(doc, &e.field) {
+                            Ok(v) => v,
+                            Err(()) => return self.njr("key is not a well-formed path"),
+                        };
+                        members = Some(ms.iter().map(|x| self.eval_member(&e.modifier, x, v, true)).collect());
                     }
                 }
-                b.0.iter().map(|e| self.eval_entry(e, doc)).collect()
+                match members {
+                    Some(ops) => ops,
+                    None => b.0.iter().map(|e| self.eval_entry(e, doc)).collect(),
+                }
             }
         };
         if self.opts.engine_exact {
             let shape = match id {
-                RIdent::Map(b) if b.0.len() == 1 => QuantShape::Single,
+                RIdent::Map(b) if b.0.len() == 1 && ops.len() == 1 => QuantShape::Single,
                 _ => QuantShape::Group,
             };
             if let Some(r) = set_quant_exact(q, &ops, shape) {
@@ -1612,11 +1639,6 @@ impl<'a> Evaluator<'a> {
             (KeyMod::None, RVal::Block(b)) => match v {
                 DocVal::Obj(o) => self.eval_block_ctx(b, o, in_list),
                 DocVal::Arr(a) => {
-                    if b.0.len() == 1 && matches!(b.0[0].modifier, KeyMod::All) {
-                        // K7: a block that is exactly one all(k) list is evaluated per member
-                        // across elements
-                        return self.njr("K7 shape");
-                    }
                     let mut any_obj = false;
                     let mut can_t = false;
                     let mut must_t = false;
@@ -1649,6 +1671,19 @@ impl<'a> Evaluator<'a> {
             (_, RVal::Block(_)) => self.nj(),
             // ---- null
             (KeyMod::None, RVal::Null) => bool_set(matches!(v, DocVal::Null)),
+            (KeyMod::Str | KeyMod::Int | KeyMod::Flt, RVal::Null) => {
+                // a null test under a cast: absent is missing (above); whether null itself passes
+                // (it is null) or fails (null cannot be cast) is not documented
+                if matches!(v, DocVal::Null) {
+                    if self.opts.engine_exact {
+                        T
+                    } else {
+                        T | F
+                    }
+                } else {
+                    self.zone(F)
+                }
+            }
             (_, RVal::Null) => self.nj(),
             // ---- booleans
             (KeyMod::None, RVal::BoolC(b)) => match v {
@@ -1663,9 +1698,9 @@ impl<'a> Evaluator<'a> {
             ),
             (KeyMod::Flt, RVal::BoolC(_)) => self.nj(),
             // ---- numbers
-            (KeyMod::None, RVal::IntC(c)) => self.cmp_plain(v, NumOp::Eq, Num::I(*c as i128)),
+            (KeyMod::None, RVal::IntC(c)) => self.cmp_plain(v, NumOp::Eq, Num::I(*c)),
             (KeyMod::None, RVal::FloatC(c)) => self.cmp_plain(v, NumOp::Eq, Num::F(*c)),
-            (KeyMod::Int, RVal::IntC(c)) => self.cmp_cast_int(v, NumOp::Eq, Num::I(*c as i128)),
+            (KeyMod::Int, RVal::IntC(c)) => self.cmp_cast_int(v, NumOp::Eq, Num::I(*c)),
             (KeyMod::Flt, RVal::FloatC(c)) => self.cmp_cast_flt(v, NumOp::Eq, *c),
             (KeyMod::Str, RVal::IntC(c)) => {
                 self.str_test(&Pattern { ci: false, pat: Pat::Exact(c.to_string()) }, v, true)
@@ -1726,6 +1761,8 @@ impl<'a> Evaluator<'a> {
             }
             other => match scalar_text(other) {
                 Some(t) => bool_set(test_string(p, &t)),
+                // C09: a cast of a value that is not convertible gives false
+                None if cast => F,
                 None => self.zone(M),
             },
         }
@@ -1740,7 +1777,8 @@ impl<'a> Evaluator<'a> {
         let exact = bool_set(cmp_exact(x, op, c));
         let same_kind = match (v, c) {
             (DocVal::Int(_), Num::I(_)) => true,
-            (DocVal::UInt(u), Num::I(_)) => *u <= i64::MAX as u64,
+            // integers are one numeric kind, whatever the width the document library chose
+            (DocVal::UInt(_), Num::I(_)) => true,
             (DocVal::Float(_), Num::F(_)) => true,
             _ => false,
         };
